@@ -48,6 +48,8 @@ ASSUMPTIONS = [
     "np.format_float_positional(x, trim='0') prints the digits of the shortest repr shifted by the exponent (sampled)",
 ]
 TRUSTED = [
+    "'accepted by the library's own reader' is not a theorem of C03: it is evaluated by the oracle (CommonRoadFileReader on the written "
+    "bytes, every document) and proved for C01's model of writer + reader (C01_xml_roundtrip_whole_file)",
     "harness/translate/xsd.py (XSD -> Lean schema term) and lxml/libxml2's XSD validator: the Lean validator is compared with "
     "lxml's verdict on every written document and on 8 mutants of each, not proved equal",
     "lxml serialisation / parsing of element trees is the identity on trees",
@@ -568,15 +570,15 @@ def doc_data(sc, pps, loc, tags, writer_meta, precision, date):
     from commonroad.scenario.traffic_light import TrafficLightDirection
     loc = loc if loc is not None else Location()
 
-    def lm(x):
-        return x.value if isinstance(x, LineMarking) and x is not LineMarking.UNKNOWN else None
+    def lm(x):    # enum MEMBER names travel; the model maps member -> written text (CR.XmlW.enumValue / boundMarking ...)
+        return x.name
     lanelets = []
     for la in sc.lanelet_network.lanelets:
         stop = None
         if la.stop_line:
             sl = la.stop_line
             stop = {"pts": [_pt(sl.start), _pt(sl.end)] if (sl.start is not None or sl.end is not None) else None,
-                    "marking": str(sl.line_marking.name.lower()) if sl.line_marking else None,
+                    "marking": sl.line_marking.name if sl.line_marking else None,
                     "signs": [int(i) for i in sl.traffic_sign_ref] if sl.traffic_sign_ref is not None else [],
                     "lights": [int(i) for i in sl.traffic_light_ref] if sl.traffic_light_ref is not None else []}
         lanelets.append({
@@ -585,23 +587,24 @@ def doc_data(sc, pps, loc, tags, writer_meta, precision, date):
             "pred": [int(i) for i in la.predecessor], "succ": [int(i) for i in la.successor],
             "adjl": [int(la.adj_left), bool(la.adj_left_same_direction)] if la.adj_left else None,
             "adjr": [int(la.adj_right), bool(la.adj_right_same_direction)] if la.adj_right else None,
-            "stop": stop, "types": [str(t.value) for t in la.lanelet_type],
-            "oneway": [str(u.value) for u in la.user_one_way] if la.user_one_way else [],
-            "bidir": [str(u.value) for u in la.user_bidirectional] if la.user_bidirectional else [],
+            "stop": stop, "types": [t.name for t in la.lanelet_type],
+            "oneway": [u.name for u in la.user_one_way] if la.user_one_way else [],
+            "bidir": [u.name for u in la.user_bidirectional] if la.user_bidirectional else [],
             "signs": [int(i) for i in la.traffic_signs] if la.traffic_signs else [],
             "lights": [int(i) for i in la.traffic_lights] if la.traffic_lights else []})
     signs = [{"id": int(sg.traffic_sign_id),
-              "elements": [[str(e.traffic_sign_element_id.value), [str(v) for v in e.additional_values]] for e in sg.traffic_sign_elements],
+              "elements": [[type(e.traffic_sign_element_id).__name__, e.traffic_sign_element_id.name, [str(v) for v in e.additional_values]]
+                           for e in sg.traffic_sign_elements],
               "pos": _pt(sg.position[:2]) if sg.position is not None else None,
               "virtual": bool(sg.virtual) if sg.virtual is not None else None} for sg in sc.lanelet_network.traffic_signs]
     lights = []
     for tl in sc.lanelet_network.traffic_lights:
         cyc = tl.traffic_light_cycle
         lights.append({"id": int(tl.traffic_light_id),
-                       "cycle": {"elements": [[int(e.duration), e.state.value] for e in cyc.cycle_elements],
+                       "cycle": {"elements": [[int(e.duration), e.state.name] for e in cyc.cycle_elements],
                                  "offset": int(cyc.time_offset) if cyc.time_offset is not None else None} if cyc is not None else None,
                        "pos": _pt(tl.position[:2]) if tl.position is not None else None,
-                       "direction": tl.direction.value if tl.direction is not TrafficLightDirection.ALL else None,
+                       "direction": tl.direction.name,
                        "active": bool(tl.active) if tl.active is not None else None})
     inters = [{"id": int(it.intersection_id),
                "incomings": [{"id": int(i.incoming_id), "lanelets": [int(x) for x in i.incoming_lanelets],
@@ -619,15 +622,15 @@ def doc_data(sc, pps, loc, tags, writer_meta, precision, date):
                 pred = ["occ", [_occ(x) for x in o.prediction.occupancy_set]]
             elif isinstance(o.prediction, TrajectoryPrediction):
                 pred = ["traj", [_state_data(x) for x in o.prediction.trajectory.state_list]]
-            dynamics.append({"id": int(o.obstacle_id), "type": o.obstacle_type.value, "shape": _shape(o.obstacle_shape),
+            dynamics.append({"id": int(o.obstacle_id), "type": o.obstacle_type.name, "shape": _shape(o.obstacle_shape),
                              "init": _state_data(o.initial_state),
                              "sig0": _signal(o.initial_signal_state) if o.initial_signal_state is not None else None,
                              "pred": pred, "series": [_signal(x) for x in o.signal_series] if o.signal_series is not None else []})
         elif isinstance(o, StaticObstacle):
-            statics.append({"id": int(o.obstacle_id), "type": o.obstacle_type.value, "shape": _shape(o.obstacle_shape),
+            statics.append({"id": int(o.obstacle_id), "type": o.obstacle_type.name, "shape": _shape(o.obstacle_shape),
                             "init": _state_data(o.initial_state)})
         elif isinstance(o, EnvironmentObstacle):
-            envs.append({"id": int(o.obstacle_id), "type": o.obstacle_type.value, "shape": _shape(o.obstacle_shape)})
+            envs.append({"id": int(o.obstacle_id), "type": o.obstacle_type.name, "shape": _shape(o.obstacle_shape)})
         elif isinstance(o, PhantomObstacle):
             phantoms.append({"id": int(o.obstacle_id),
                              "occ": [_occ(x) for x in o.prediction.occupancy_set] if isinstance(o.prediction, SetBasedPrediction) else None})
@@ -645,13 +648,13 @@ def doc_data(sc, pps, loc, tags, writer_meta, precision, date):
                "scale": _num(g.scaling)}
     if loc.environment is not None:
         e = loc.environment
-        env = {"h": int(e.time.hours), "m": int(e.time.minutes), "tod": e.time_of_day.value, "weather": e.weather.value,
-               "underground": e.underground.value}
-    return {"precision": precision, "dt": _num(sc.dt), "version": commonroad.SCENARIO_VERSION, "author": writer_meta[0],
+        env = {"h": int(e.time.hours), "m": int(e.time.minutes), "tod": e.time_of_day.name, "weather": e.weather.name,
+               "underground": e.underground.name}
+    return {"precision": precision, "dt": _num(sc.dt), "author": writer_meta[0],
             "affiliation": writer_meta[1], "source": writer_meta[2], "benchmark": str(sc.scenario_id), "date": date,
             "location": {"geoNameId": int(loc.geo_name_id), "lat": _num(loc.gps_latitude), "lon": _num(loc.gps_longitude),
                          "geo": geo, "env": env},
-            "tags": [t.value for t in tags], "lanelets": lanelets, "signs": signs, "lights": lights, "intersections": inters,
+            "tags": [t.name for t in tags], "lanelets": lanelets, "signs": signs, "lights": lights, "intersections": inters,
             "statics": statics, "dynamics": dynamics, "phantoms": phantoms, "envs": envs, "problems": problems}
 
 
